@@ -93,7 +93,7 @@ def whitelisted_leaf_names():
     return names
 
 
-ORDINARY = ["m", "delete", "startswith", "format", "encode", "_private", "write"]
+ORDINARY = ["m", "delete", "startswith", "format", "encode", "_private", "write", "join", "mro", "format_map", "zfill"]
 
 
 def targets(meth):
@@ -122,11 +122,24 @@ def targets(meth):
         ("lambda", "(lambda: r.c.%s())()" % meth),
         ("lambda", "(lambda q: q.%s())(r.c)" % meth),
         ("type-matcher", "Type.record.%s()" % meth),
+        ("attr-of-whitelisted-callable", "str.%s(r.s)" % meth),
+        ("attr-of-whitelisted-callable", "repr.%s(r.c)" % meth),
+        ("attr-of-whitelisted-callable", "lower.%s(r.s)" % meth),
+        ("attr-of-whitelisted-callable", "any.%s([r.c])" % meth),
+        ("attr-of-whitelisted-callable", "fields.%s('string')" % meth),
+        ("attr-of-whitelisted-callable", "name.%s(r)" % meth),
+        ("attr-of-whitelisted-type", "net.ipaddress.%s('1.1.1.1')" % meth),
+        ("attr-of-whitelisted-type", "string.%s('x')" % meth),
+        ("attr-of-whitelisted-type", "net.%s('x')" % meth),
+        ("attr-of-namespace-object", "Type.%s(r.c)" % meth),
+        ("attr-of-namespace-object", "r.%s()" % meth),
         ("keyword-arg-target", "r.c.%s(x=1)" % meth),
     ]
 
 
 NAME_CALLS = [
+    "str.format('{0.__class__.__init__.__globals__}', r)", "str.format_map('{c}', r)", "str.join('', [r.s])",
+    "str.mro()", "str.upper(r.s)", "repr.__call__(r)", "any.__call__([1])", "lower.__call__('A')",
     "open('/tmp/verif-c09-tripwire', 'w')", "eval('1')", "exec('1')", "getattr(r, 's')", "__import__('os')",
     "print(1)", "type(r)", "globals()", "locals()", "compile('1', 'x', 'eval')", "dir(r)", "vars(r)",
     "setattr(r, 's', 'x')", "delattr(r, 's')", "len(r.s)", "int('1')", "list(r.sl)", "iter(r.sl)", "next(r.c)",
